@@ -250,7 +250,9 @@ def h7(ctx):
             for r in parts:
                 srcs.append(role_str(r[3][1]))
                 ok = ok and strip_role(r[3][2]) == ("param", "subst")
-        order_ok = ok and len(set(srcs)) == 3 and [s for s in srcs] == sorted(srcs, key=lambda s: int(s.split(".")[-1]) if s.split(".")[-1].isdigit() else 0)
+        import re as _re
+        comps = [(_re.search(r"Subst\.(\d)", s_) or [None, None])[1] for s_ in srcs]
+        order_ok = ok and comps == ["0", "1", "2"]
         ctx.check(ok, "parts-from-same-substitution", "b, x and t are each pattern_subst(.., subst) of the three sub-patterns", "the parts of b[x := t] are %s" % [role_str(r)[:50] for r in parts], where_of(p, c.bb))
         ctx.check(order_ok, "parts-in-order", "subst(b, x, t) receives the instantiations of Subst.0, Subst.1, Subst.2 in that order", "b[x := t] hands its parts to the substitution method as %s" % srcs, where_of(p, c.bb))
     # the method is put back
